@@ -14,7 +14,7 @@ LEVEL = "model_checking"
 ASSUME = ["data races are observed with the Go race detector (go build -race) on free-running scenarios with microsecond ticker intervals; "
           "a race that needs a schedule the scenarios never produce is not seen",
           "race reports are reduced to pairs of innermost library frames", "TLC/SANY, Go toolchain"]
-SCENARIOS = ["ticker-vs-fg", "queries-vs-stop", "double-stop", "start-stop", "smart", "readers-same-file",
+SCENARIOS = ["ticker-vs-fg", "ticker-with-work", "queries-vs-stop", "double-stop", "start-stop", "smart", "readers-same-file",
              "handles-distinct-files", "filewriter-incremental", "bufferpool"]
 
 
@@ -72,12 +72,12 @@ def run(ctx):
             seen = set()
             for pr in raceparse.parse(logp):
                 nrep += 1
-                key = (pr["a"], pr["b"], pr["akind"], pr["bkind"])
+                key = (pr["a"], pr["b"], pr["akind"], pr["bkind"], pr["afields"], pr["bfields"])
                 if key in seen:
                     continue
                 seen.add(key)
                 events.append({"case": 0, "op": "race", "scenario": sc, "a": pr["a"], "b": pr["b"], "akind": pr["akind"], "bkind": pr["bkind"],
-                               "sa": short(pr["a"]), "sb": short(pr["b"])})
+                               "afields": pr["afields"], "bfields": pr["bfields"], "sa": short(pr["a"]), "sb": short(pr["b"])})
     trace = os.path.join(ctx.scr, "trace.ndjson")
     with open(trace, "w") as f:
         for e in events:
@@ -94,7 +94,7 @@ def run(ctx):
         "rule": "TLC explores every interleaving of 2 foreground goroutines x 2 calls (delete, batch rebalance, progress, is-enabled, stop) with the "
                 "background ticker (2 ticks) for the incremental rebalancer, and of start/stop/evaluate/stats with the monitor loop for the smart "
                 "rebalancer: the intended design satisfies NoRace/NoPanic/StopReturns/NoLeak, the code-as-is variant yields the racing pairs; "
-                "9 scenarios run under the race detector (ticker vs foreground, queries vs stop, concurrent stop, 300 start/stop cycles, smart "
+                "10 scenarios run under the race detector (ticker vs foreground, queries vs stop, concurrent stop, 300 start/stop cycles, smart "
                 "rebalancer, 8 readers on one file, 8 writers on distinct files, public writer with incremental rebalancing, buffer pool); "
                 "every report is reduced to a pair of library frames and judged",
         "model_predicted_racing_pairs": sorted(list(p) for p in pred),
